@@ -66,9 +66,10 @@ func runC02(p *eng.Prog, r *eng.Report, tier string) {
 	bitProducers(c, "C02.8", 1, "Secure", map[string]string{
 		"xmpp.StartTLS$3":          "",
 		"xmpp.negotiateSession":    "commaok(*.conn.(*crypto/tls.Conn))",
-		"websocket.NewSession":     "eq(*.Scheme,\"wss\")",
-		"websocket.ReceiveSession": "eq(*.Scheme,\"wss\")",
+		"websocket.NewSession":     "websocket.secureLocation(*)",
+		"websocket.ReceiveSession": "websocket.secureLocation(*)",
 	}, 4)
+	c02SecureIsTheLocation(c, "C02.21")
 }
 
 // structLitField returns the value of field name in a keyed composite literal.
@@ -796,4 +797,50 @@ func newLayerOnlyAtRestart(c *cx, id string) {
 		c.domAny(id, f, cl, "tee connection created", []string{"*.doRestart"})
 	}
 	c.r.Floor(id, "tee connections created by the negotiator", n, 1)
+}
+
+// c02SecureIsTheLocation (C02.21): a WebSocket session starts with the Secure
+// bit when its transport is TLS, that is when the scheme of the WebSocket
+// LOCATION (the endpoint that was dialed / that accepted) is wss. The test
+// reads Conn.Config().Location.Scheme on both sides; LocalAddr() of a client
+// connection is the Origin header, a string the caller chose (F135: a client
+// with origin wss://... on a ws:// endpoint skipped STARTTLS and sent its
+// password in clear). Every true return of secureLocation is the comparison
+// of that scheme with "wss", and nothing in the function reads the Origin or
+// the connection's addresses.
+func c02SecureIsTheLocation(c *cx, id string) {
+	f := c.fn(id, "websocket", "secureLocation")
+	if f == nil {
+		return
+	}
+	g := f.Graph()
+	n := 0
+	for _, rs := range g.Returns {
+		if len(rs.Results) != 1 {
+			continue
+		}
+		rp, _ := g.Where(rs)
+		v := f.Norm(rs.Results[0], &rp)
+		if v == "false" {
+			continue
+		}
+		n++
+		okv := (strings.Contains(v, "websocket.Conn.Config[p0]().Location.Scheme,\"wss\")") || strings.Contains(v, "websocket.Conn.Config[p0]().Location.Scheme == \"wss\"")) && !strings.Contains(v, "Origin") && !strings.Contains(v, "Addr")
+		c.r.Check(id, f, "what makes a WebSocket session secure", "P: the scheme of Config().Location is wss", rs.Pos(), okv, "returns "+v)
+	}
+	c.r.Floor(id, "returns of secureLocation that can be true", n, 1)
+	bad := ""
+	for _, cl := range f.AllCalls() {
+		switch cid := f.CalleeID(cl); {
+		case strings.HasSuffix(cid, ".LocalAddr"), strings.HasSuffix(cid, ".RemoteAddr"):
+			bad = cid
+		}
+	}
+	f.WalkBody(func(nd ast.Node) bool {
+		if sel, ok := nd.(*ast.SelectorExpr); ok && sel.Sel.Name == "Origin" {
+			bad = "Config().Origin"
+		}
+		return true
+	})
+	c.r.Check(id, f, "sources of secureLocation", "K: neither the Origin nor the connection's addresses are consulted", f.Pos(), bad == "", "reads "+bad)
 }
